@@ -955,8 +955,17 @@ def _symbolic_comp(I, e, env, inner, kind, it):
         raise OutsideSubset("comprehension maps a set-like source")
     # sequence source: element-wise map (no filter)
     seq = iterate_seq(I, it)
+    if isinstance(it, HView) and it.kind == "range":
+        xi = fresh("ci", I_)
+        xb_range = V.int(xi)
+    else:
+        xb_range = None
+    if kind == "list" and not g.ifs and _allocates(e.elt):
+        return _opaque_allocating_map(I, e, inner, seq, xb_range, it)
     if kind in ("list", "gen") and not g.ifs:
         npc = len(st.pc)
+        if xb_range is not None:
+            xb = xb_range
         I.assign_target(g.target, xb, inner)
         elt = pure_eval(I, lambda: I.lift(I.ev(e.elt, inner)))
         if st.pc[npc:]:
@@ -1001,6 +1010,56 @@ def _symbolic_comp(I, e, env, inner, kind, it):
         c, elt = pure_eval(I, body)
         return HView("seqfilter", (seq, xb, c, elt))
     raise OutsideSubset("comprehension over a symbolic sequence with filter")
+
+
+def _allocates(expr):
+    return any(isinstance(n, (ast.Dict, ast.List, ast.Set, ast.ListComp, ast.DictComp, ast.SetComp)) for n in ast.walk(expr))
+
+
+def _opaque_allocating_map(I, e, inner, seq, xb_range, it):
+    """[<fresh container built from x> for x in seq] over a sequence of symbolic length: the element expression is
+    evaluated once for an arbitrary element in a scratch copy of the state (it must not fork or raise - otherwise the
+    comprehension is outside the subset); the result is a list of that length whose elements are fresh objects with
+    unconstrained contents (a sound over-approximation: nothing is assumed about them)."""
+    st = I.st
+    g = e.generators[0]
+    i = fresh("ci", I_)
+    x = xb_range if xb_range is not None else st.wf_read(seq.at(i))
+    snap = st.snapshot()
+    envsnap = dict(inner.vars)
+    st.pc.append(z3.And(i >= 0, i < seq.n))
+    if xb_range is not None:
+        lo = it.base[0]
+        st.pc.append(V.i(x) == lo + i)
+    saved = st.oracle
+
+    class Strict:
+        trail = saved.trail
+        prefix = saved.prefix
+
+        def choose(self, n, label=""):
+            raise OutsideSubset(f"allocating comprehension body forks ({label})")
+    st.oracle = Strict()
+    try:
+        I.assign_target(g.target, x, inner)
+        I.ev(e.elt, inner)
+    except PyRaise:
+        raise OutsideSubset("allocating comprehension body may raise")
+    finally:
+        st.oracle = saved
+        st.restore(snap, keep_trail=True)
+        inner.vars = envsnap
+    out = Sq(fresh("alloc_map", VArr), seq.n)
+    j = z3.Int("j!am")
+    lo_id = st.nalloc
+    st.nalloc += 1000
+    st.assume(forall([j], z3.Implies(z3.And(j >= 0, j < seq.n), z3.And(V.is_ref(out.at(j)), V.id(out.at(j)) > lo_id, V.id(out.at(j)) <= st.nalloc)),
+                     [out.at(j)]))
+    # the fresh objects' contents are unconstrained: havoc the heap region above lo_id
+    from .interp import _havoc_heap, _framed_havoc
+    new = _havoc_heap(st.h, f"AM{lo_id}", st.nalloc)
+    st.h = _framed_havoc(st.h, new, lo_id, [])
+    return st.new_list(out)
 
 
 # ----------------------------------------------------------------------------------------------
@@ -1251,6 +1310,8 @@ def _str_method(I, s, name, args, kwargs):
         return vstr(z3.Replace(x, V.s(I.lift(args[0])), V.s(I.lift(args[1])))) if False else vstr(
             z3.Function("str_replace_all", z3.StringSort(), z3.StringSort(), z3.StringSort(), z3.StringSort())(
                 x, V.s(I.lift(args[0])), V.s(I.lift(args[1]))))
+    if name == "encode":
+        return V.obj(z3.Function("Utf8", z3.StringSort(), I_)(x))
     if name == "isidentifier":
         return vbool(z3.Function("str_isidentifier", z3.StringSort(), z3.BoolSort())(x))
     raise OutsideSubset("str." + name)
